@@ -39,10 +39,15 @@ CLAIMED = {
              "state machine with theorems for EVERY chunking of the byte stream (frames emitted exactly, in order; "
              "truncation never yields a short message; oversize rejected), FIFO/EOF theorems for the in-memory and framed "
              "pipes under every interleaving of send/flush/recv/close/drop; tied to the real FramedRead codec and to the "
-             "real serde_transport (bincode, JSON) over a fragmenting duplex plus the in-memory channels.",
+             "real serde_transport (bincode, JSON) over a fragmenting duplex plus the in-memory channels. JSON: a Lean model of "
+             "serde_json's compact writer and a total parser with theorems parse(render v ++ rest) = (v, rest) for EVERY value, "
+             "render injective/self-delimiting, decodeJson(encodeJson m) = m for every valid ClientMessage/Response (String "
+             "bodies, any ids/trace ids/durations, all error kinds over the generated tables), tied byte-exactly to the real "
+             "tokio_serde Json codec (c15json family).",
         note="Trusted: Lean kernel; axioms propext/Classical.choice/Quot.sound; translator (tables), harness + ./check; "
-             "bincode 1.3 / serde-derive schema and LengthDelimitedCodec as modelled. The JSON text form has no Lean model: "
-             "it is covered by the end-to-end correspondence family only (partial).",
+             "bincode 1.3 / serde-derive schema, serde_json's text form and LengthDelimitedCodec as modelled. That the Lean JSON "
+             "parser accepts exactly what serde_json accepts on documents the writer does not produce is validated by the "
+             "c15json correspondence family (42k scripts, reordered members, whitespace, escapes, malformed input), not proved.",
         technique="Lean 4 codec round-trip proofs over translator-generated tables + byte-exact model/implementation correspondence",
         design="8/C15"),
     "C16": dict(
@@ -53,10 +58,16 @@ CLAIMED = {
              "client/server models and the armed timeout is clamped per the translated constants. Tie: c16dec family "
              "(random, mutated, truncated, spliced and boundary-valued byte streams fed to the real framed JSON/bincode "
              "decoders under catch_unwind), c15bin (reader outcome value/error/panic predicted exactly), cli/srv system "
-             "families with extreme ids and deadlines decades away: no panic observation on any trace.",
+             "families with extreme ids and deadlines up to 2^63 s away, run without a subscriber, with a formatting "
+             "subscriber and with an OpenTelemetry subscriber: no panic observation on any trace ([C16] monitor = "
+             "Monitors/NoPanic.lean). System level: C16_client_no_panic / C16_server_no_panic — no reachable trace of the "
+             "client / server model contains a panic observation, for every op sequence whose clock stays below 2^35 ms "
+             "(hypothesis shown necessary by the late-panic witnesses = known finding timer-wheel lag); "
+             "C16_span_deadline_never_panics — the rpc.deadline span field renders for every deadline, tied to the "
+             "translated facts that the source uses checked_add and caps at year 9999.",
         note="Trusted: Lean kernel; axioms propext/Classical.choice/Quot.sound; translator flags; harness + ./check. Absence "
-             "of panics inside serde_json / bincode / LengthDelimitedCodec is tested, not proved. Virtual time (idle period "
-             "of a DelayQueue) stays below the wheel's range (2^36 ms). No tracing subscriber installed. The macro-generated "
+             "of panics inside serde_json / bincode / LengthDelimitedCodec / tracing subscribers is tested, not proved. "
+             "Known finding (open): an idle DelayQueue older than 2^36 ms panics on insert (tokio-util). The macro-generated "
              "client's unreachable!() on a wrong response variant is outside the property's anchors (noted in DESIGN.md).",
         technique="Lean 4 totality/no-panic proof tied to translated source facts + robustness differential runs under catch_unwind",
         design="8/C16"),
@@ -126,10 +137,10 @@ SYS = {
     'C04': dict(text="Lean 4 theorems over the server model: a Cancel for a tracked id sets exactly that execution's abort flag, forgets the entry and its timer and nothing else; for an untracked id it is the identity; an aborted execution never polls its handler nor queues a response; cascade down a chain of any depth by induction (Chain model). Tie: exact correspondence of the server model (cancel at every position relative to handler start/completion/response buffering/write, with and without limit, sink stalls); chain family with real 1-3 hop client/server chains; C04 monitor on implementation traces.",
         note='Trusted: Lean kernel; axioms propext/Classical.choice/Quot.sound; translator flags (Gen/Flags.lean), harness + ./check; library semantics modelled not verified (tokio mpsc/oneshot/semaphore hand-off, tokio-util DelayQueue timer wheel, futures Abortable/Fuse); one poll = one atomic step; executor drops a completed dispatch / the application stops at the first error item. ',
         technique='Lean 4 mechanism + induction proofs + model/implementation correspondence (single hop exact, chains abstract)', design='8/C04'),
-    'C05': dict(text="Lean 4 theorems over the client model and the DelayQueue (timer-wheel) model: a DeadlineExceeded outcome is produced only at a virtual time >= the call's deadline (never early), for every deadline, queueing delay and clock stepping; the armed timeout is deadline - transmission time. Tie: exact correspondence under a virtual clock (verif-hooks) with clock steps landing 1 ns before / at / after timer ticks; C05 monitor (never early; reply before deadline wins; expired by the first dispatch poll at or after the tick).",
+    'C05': dict(text="Lean 4 theorems over the client model and the DelayQueue (timer-wheel) model: a DeadlineExceeded outcome is produced only at a virtual time >= the call's deadline (never early), for every deadline (incl. those beyond the one-year timer clamp: the timer is re-armed), queueing delay and clock stepping; the armed timeout is min(deadline - transmission time, clamp) with the rest remembered. The not-late clause is monitor + correspondence only (DelayQueue completeness is not proved). Tie: exact correspondence under a virtual clock (verif-hooks) with clock steps landing 1 ns before / at / after timer ticks; C05 monitor (never early; reply before deadline wins; expired by the first dispatch poll at or after the tick).",
         note='Trusted: Lean kernel; axioms propext/Classical.choice/Quot.sound; translator flags (Gen/Flags.lean), harness + ./check; library semantics modelled not verified (tokio mpsc/oneshot/semaphore hand-off, tokio-util DelayQueue timer wheel, futures Abortable/Fuse); one poll = one atomic step; executor drops a completed dispatch / the application stops at the first error item. ',
         technique='Lean 4 invariant proof (timer entries never earlier than deadlines) + virtual-time correspondence + monitor', design='8/C05'),
-    'C06': dict(text='Lean 4 theorems over the server model: expiry aborts only at now >= deadline; expiry touches only the expired request; all due expirations are drained before the channel goes idle; witness theorem for the limiter stall (known finding). Tie: exact correspondence under a virtual clock; C06 monitor on implementation traces; the stall finding is matched by signature and reported as KNOWN-FINDING.',
+    'C06': dict(text='Lean 4 theorems over the server model: expiry aborts only at now >= deadline (never early, incl. deadlines beyond the one-year timer clamp: the timer is re-armed); expiry touches only the expired request; a channel poll that goes idle ended with a timer-queue poll that reported nothing expired (the aborts-at-deadline clause is partial: DelayQueue completeness is not proved); witness theorem for the limiter stall (known finding). Tie: exact correspondence under a virtual clock; C06 monitor on implementation traces; the stall finding is matched by signature and reported as KNOWN-FINDING.',
         note='Trusted: Lean kernel; axioms propext/Classical.choice/Quot.sound; translator flags (Gen/Flags.lean), harness + ./check; library semantics modelled not verified (tokio mpsc/oneshot/semaphore hand-off, tokio-util DelayQueue timer wheel, futures Abortable/Fuse); one poll = one atomic step; executor drops a completed dispatch / the application stops at the first error item. ',
         technique='Lean 4 invariant proofs + virtual-time correspondence + monitor; known finding by signature', design='8/C06'),
     'C08': dict(text='Lean 4 theorems over the server model: a response is written only while its id is tracked and that untracks it (at most one per accepted request, none for ids never read); a request whose id is tracked is ignored without any state change; run-level statements as listed in evidence.theorems. Tie: exact correspondence on peer streams with fresh ids, duplicates while in flight, ids re-used after completion, cancels, closes, every completion order; C08 monitor.',
@@ -147,7 +158,7 @@ SYS = {
     'C12': dict(text='Lean 4 theorems over the limiter model: a request is handed out only with at most L in flight including itself; a refused request gets exactly the throttle reply and never becomes an execution; a refusal happens only in a poll that began at the limit; witness theorem for the over-throttle (known finding: refused although fewer than L in flight when read). Tie: correspondence with limits 0-2 and mixed request/cancel batches; C12 monitor; the over-throttle finding is matched by signature.',
         note='Trusted: Lean kernel; axioms propext/Classical.choice/Quot.sound; translator flags (Gen/Flags.lean), harness + ./check; library semantics modelled not verified (tokio mpsc/oneshot/semaphore hand-off, tokio-util DelayQueue timer wheel, futures Abortable/Fuse); one poll = one atomic step; executor drops a completed dispatch / the application stops at the first error item. ',
         technique='Lean 4 proofs over the limiter model + correspondence + monitor; known finding by signature', design='8/C12'),
-    'C14': dict(text='Lean 4 theorems over both models and the SimTransport contract recorder: no start_send without a preceding poll_ready -> Ready in any reachable state; no write after close or after a readiness/flush/close failure; with the current ensure_writeable no busy loop (witness theorem for the pre-fix loop); flush pending or done whenever the owner goes idle. Tie: correspondence of the complete transport call sequence (capacities 1-3, coupled and independent readiness, faults); C14 monitor on implementation traces; translator flags tie the ensure_writeable shape to the source.',
+    'C14': dict(text='Lean 4 theorems over both models and the SimTransport contract recorder: no start_send without a preceding poll_ready -> Ready in any reachable state; no write after close or after a readiness/flush/close failure; with the current ensure_writeable no busy loop, proved unconditionally for every reachable trace of both models (witness theorem for the pre-fix loop); flush pending or done whenever the owner goes idle. Tie: correspondence of the complete transport call sequence (capacities 1-3, coupled and independent readiness, faults); C14 monitor on implementation traces; translator flags tie the ensure_writeable shape to the source.',
         note='Trusted: Lean kernel; axioms propext/Classical.choice/Quot.sound; translator flags (Gen/Flags.lean), harness + ./check; library semantics modelled not verified (tokio mpsc/oneshot/semaphore hand-off, tokio-util DelayQueue timer wheel, futures Abortable/Fuse); one poll = one atomic step; executor drops a completed dispatch / the application stops at the first error item. ',
         technique='Lean 4 control-flow proofs + full transport-call-log correspondence + monitor + translator flag', design='8/C14'),
     'C18': dict(text="Lean 4 theorems: the Cancel written for an id carries the trace context stored with its in-flight entry, which is the one its Request was written with (same trace id, span id, sampling decision); chain model: every hop observes the caller's trace id and sampling decision with pairwise distinct fresh spans, non-interference between concurrent calls. Tie: correspondence of trace fields at the client sink and of the context the server yields; chain family on real 1-3 hop chains; C18 monitors.",
